@@ -54,6 +54,18 @@ def gen_program(rng, meta, n=None, kinds=None):
             cur[kind][orig] = x
         return x
 
+    if "placement" in kinds and meta.get("place") and rng.random() < 0.2:
+        # a placement scenario: per-cell data of one kind move to the other block, then one cell's datum is edited
+        key = rng.choice(["imp", "imp", "vol", "u"])
+        if key == "imp" and meta["place"].get("imp") != "data":
+            key = "vol"       # (importances only move from the data block to the cells: see _placement_plain)
+        prog.append({"kind": "placement", "key": key, "data_block": meta["place"].get(key) != "data"})
+        c = rng.choice(meta["cells"])
+        if key == "imp":
+            prog.append({"kind": "importance", "orig": c, "particle": rng.choice(meta["particles"]),
+                         "value": rng.choice([0.0, 2.0, 4.0, 0.5, 8.0])})
+        elif key == "vol":
+            prog.append({"kind": "volume", "orig": c, "value": rng.choice([2.5, 100.0, 0.125])})
     for _ in range(n):
         k = rng.choice(kinds)
         if k == "cell_number":
@@ -344,6 +356,8 @@ def _placement_plain(pr, key, to_data_block):
                     return False          # a comment line directly before the card is handed to it on read
             prev = lines or prev
         return True
+    if key == "imp":
+        return False      # importances of the cells collected into new data-block cards: C09's open defects
     inner = re.compile(r"(^|\s)" + _MODKEY[key] + r"\s*=?\s*(\$.*)?$", re.I)
     for cell in pr.cells:
         inp = getattr(cell, "_input", None)
